@@ -167,7 +167,7 @@ type spec struct {
 	Case    []bool // letter case pattern of the keywords in the fresh file's DDL and in parse-fresh statements
 }
 
-var kinds = []string{"parse-fresh", "select-probed", "select", "select-wr", "indexed", "indexed-nocase", "indexed-eq", "indexed-wr", "pk", "rowid", "columns", "low-scan", "parse", "compare", "driver", "driver-early-close", "driver-connect", "open-close", "schema", "def", "def"}
+var kinds = []string{"parse-fresh", "select-probed", "select", "select-wr", "indexed", "indexed-nocase", "indexed-eq", "indexed-wr", "pk", "rowid", "columns", "low-scan", "parse", "compare", "driver", "driver-early-close", "driver-connect", "open-close", "schema", "def", "def", "low-missing", "low-missing"}
 
 var statements = []string{
 	"CREATE TABLE t (a INTEGER PRIMARY KEY, b, c TEXT COLLATE NOCASE)",
@@ -323,7 +323,7 @@ func runOp(h *handles, o opSpec, yield bool, pattern []bool) string {
 		if err != nil {
 			return fail(err)
 		}
-	case "low-scan", "schema":
+	case "low-scan", "schema", "low-missing":
 		d, err := h.low(o.File)
 		if err != nil {
 			return fail(err)
@@ -332,6 +332,21 @@ func runOp(h *handles, o opSpec, yield bool, pattern []bool) string {
 			return fail(err)
 		}
 		defer d.RUnlock()
+		if o.Kind == "low-missing" {
+			// the error path of the low-level lookups: objects that do not
+			// exist, or exist as something else; the errors are kept and looked
+			// at after other lookups have failed
+			n := fmt.Sprintf("missing_%d", o.Arg%9)
+			_, e1 := d.Table(n)
+			_, e2 := d.NonRowidTable("t") // (a rowid table)
+			_, e3 := d.Index(n + "_idx")
+			_, e4 := d.Table("w") // (a WITHOUT ROWID table)
+			if yield {
+				runtime.Gosched()
+			}
+			fmt.Fprintf(&b, "%v;%v;%v;%v", e1, e2, e3, e4)
+			return b.String()
+		}
 		if o.Kind == "schema" {
 			s, err := d.Schema("w")
 			if err != nil {
